@@ -600,6 +600,8 @@ class STransformedTargetRegressor2(Spec):
             "transformer": ch.choice("w", ["log", "log1p", "log(1+x)"], "tr"),
             "local": ch.choice("w", ["linreg", "tree", None], "local"),
             "as_object": ch.weighted("w", [(False, 3), (True, 1)], "tr-object"),
+            # several target columns: predictions have one row per query row
+            "targets": ch.weighted("w", [(1, 4), (2, 1), (3, 1)], "n-targets"),
         }
 
     def build(self, cfg):
@@ -608,6 +610,14 @@ class STransformedTargetRegressor2(Spec):
         local = {"linreg": PLinReg(), "tree": PTreeReg(max_depth=2, random_state=0), None: None}[cfg["local"]]
         tr = FunctionReciprocalTransformer(cfg["transformer"]) if cfg.get("as_object") else cfg["transformer"]
         return TransformedTargetRegressor2(regressor=local, transformer=tr)
+
+    def fit_args(self, data, cfg=None):
+        args, kw = Spec.fit_args(self, data, cfg)
+        t = (cfg or {}).get("targets", 1)
+        if t > 1 and len(args) == 2 and numpy.asarray(args[1]).ndim == 1:
+            y = numpy.asarray(args[1])
+            args = (args[0], numpy.stack([y * (1 + 0.5 * j) + j for j in range(t)], axis=1))
+        return args, kw
 
 
 class STransformedTargetClassifier2(Spec):
